@@ -215,8 +215,12 @@ func Parse(input string) (*Tree, error) {
 // Parse begins parsing, returning an error, if any.
 func (t *Tree) Parse() error {
 	defer verifEvent("parse.ret", t.lex, "")
-	// Release the tokenizer when parsing ends before it has sent everything.
-	defer close(t.lex.done)
+	// Release the tokenizer when parsing ends before it has sent everything,
+	// and wait for it: no goroutine outlives the call.
+	defer func() {
+		close(t.lex.done)
+		<-t.lex.exited
+	}()
 	go t.lex.tokenize()
 	for {
 		n, err := t.parse()
